@@ -79,6 +79,10 @@ def surrounding(rng, tag, rich, same_names=()):
         ["def zq_loader_{0}(zq_path):".format(tag), "    with open(zq_path) as zq_f:", "        ConfigClass = zq_f.read()",
          "    if ConfigClass:", "        f_target = len(ConfigClass)", "    else:", "        f_target = 0",
          "    for set_cli_args in range(f_target):", "        pass", "    return ConfigClass, f_target"],
+        # generic definitions with their own type parameters (PEP 695; the interpreter doctrans runs under accepts them)
+        *([["def zq_first_{0}[ZqT](zq_xs: list[ZqT]) -> ZqT:".format(tag), "    return zq_xs[0]", "",
+            "class ZqBox_{0}[ZqT: (int, str)]:".format(tag), "    def zq_map[ZqU](self, zq_f) -> ZqU:", "        return zq_f(self)"]]
+          if sys.version_info >= (3, 12) else []),
         # a plain function whose PARAMETERS carry the targets' simple names
         ["def zq_build_{0}(ConfigClass, f_target=3, *, set_cli_args=None):".format(tag), "    return ConfigClass, f_target, set_cli_args"],
         ["def zq_make_{0}(zq_first, set_cli_args=None, f_target=3, ConfigClass=dict):".format(tag), "    return zq_first, ConfigClass"],
